@@ -7,8 +7,7 @@ import (
 
 // resetAll restores the package-level state of the library and of the shims before an execution.
 func resetAll() {
-	log.VerifResetGlobals() // generated: every package-level variable back to its value before the first execution
-	log.VerifReset()
+	log.VerifResetGlobals() // generated: everything reachable from the package-level variables back to its state before the first execution (deep, in place)
 	vos.StderrBuf = vos.StderrBuf[:0]
 	vos.StdoutBuf = vos.StdoutBuf[:0]
 }
